@@ -1,7 +1,9 @@
 (** C20 - literal macros build exactly the number that was written: pinned statements.
     Models: theories/Macro/LitModel.v; proofs: LitGenProofs.v (generators, constructors),
     LitTokProofs.v (token loops).  Every statement is for all magnitudes / all token lists. *)
-From Dashu Require Import Base.Prelude Base.Words Int.IoSpec Macro.LitModel Macro.LitGenProofs Macro.LitTokProofs.
+From Dashu Require Import Base.Prelude Base.Words Int.IoSpec Int.IoModel Float.TextIoSpec Float.PartsConstModel Ratio.RatArithModel
+  Macro.LitModel Macro.LitGenProofs Macro.LitTokProofs
+  Macro.LitLexModel Macro.LitLexProofs Macro.LitRefModel Macro.LitRefProofs Macro.LitSrcProofs.
 Open Scope Z_scope.
 
 (** from_le_bytes (to_le_bytes n) = n, and the byte string is the shortest one *)
@@ -135,3 +137,131 @@ Theorem C20_fbin_double_sign_rejected :
   fbin_text_asis [mk_tok TPunct [45]; mk_tok TIdent [95; 48; 120; 49]] = Some (Negative, [48; 120; 49]).
 Proof. exact fbin_double_sign_rejected. Qed.
 Print Assumptions C20_fbin_double_sign_rejected.
+
+(* ================================================================================================================ *)
+(** * round 3: relative to the GRAMMAR VALUE of the literal, with the run-time parsers as their own properties model them
+    (C07 Int/IoModel.v, C08 Float/PartsConstModel.v fbig_from_str_asis, C04 Ratio/RatArithModel.v), Macro/LitRefModel.v *)
+
+(** ubig!/ibig!/static_ubig!/static_ibig!, the whole macro (token loop -> C07's as-is parser for the host word size w ->
+    generator -> emitted constructor for the target word size): it compiles iff the tokens are a literal of the grammar
+    [+|-]? value [`base` N]? with value = digits and `_` of the radix (C07 body_rel), and then it builds exactly
+    sign * positional value of the written digits *)
+Theorem C20_int_macro_builds_the_written_number : forall w wbits signed_ static_ ts z, parser_word w -> std_word wbits ->
+  (macro_int_asis w wbits signed_ static_ ts = Some z <-> int_literal signed_ ts z).
+Proof. exact macro_int_asis_literal. Qed.
+Print Assumptions C20_int_macro_builds_the_written_number.
+
+(** ... which is what the run-time parser of the same signedness returns for the text sign + value in that radix *)
+Theorem C20_int_macro_equals_runtime_parser : forall w signed_ neg v b, parser_word w -> value_text_ok v = true ->
+  (neg = true -> signed_ = true) ->
+  int_runtime w signed_ neg v b =
+  match macro_uint_asis w v b with Some (m, _) => Some (signed (sign_of_neg neg) m) | None => None end.
+Proof. exact macro_int_eq_runtime. Qed.
+Print Assumptions C20_int_macro_equals_runtime_parser.
+
+Theorem C20_uint_value_is_grammar_value : forall v b m r,
+  macro_uint_value v b = Some (m, r) <->
+  exists body ds, uint_text_split v b = Some (r, body) /\ body_rel r body ds /\ ds <> [] /\ m = digits_value r ds.
+Proof. exact macro_uint_value_literal. Qed.
+Print Assumptions C20_uint_value_is_grammar_value.
+
+(** a float literal of C08's grammar hands the generators what they are proved for *)
+Theorem C20_float_literal_meets_generator_precondition : forall B s sig e p, 2 <= B ->
+  TextIoSpec.parse_spec B s = Some (sig, e, p) -> float_pre B (Z.abs sig) e p.
+Proof. exact parse_spec_float_pre. Qed.
+Print Assumptions C20_float_literal_meets_generator_precondition.
+
+(** fbig!/static_fbig! and dbig!/static_dbig!, the whole macro (text of the tokens -> FBig::from_str as C08 models it ->
+    generator -> constructor): a literal of the grammar outside the two recorded precision classes builds exactly the
+    written significand, exponent and digit count; everything the macro compiles is a literal of the grammar *)
+Theorem C20_fbin_macro_builds_the_written_number : forall wbits static_ ts r, std_word wbits -> fbin_literal ts r ->
+  ~ Known_float static_ r -> macro_fbin_asis wbits static_ ts = Some r.
+Proof. exact macro_fbin_correct. Qed.
+Print Assumptions C20_fbin_macro_builds_the_written_number.
+
+Theorem C20_fbin_macro_rejects_the_rest : forall wbits static_ ts r, macro_fbin_asis wbits static_ ts = Some r ->
+  exists s body sig e p, fbin_text_spec ts = Some (s, body) /\ TextIoSpec.parse_spec 2 body = Some (sig, e, p).
+Proof. exact macro_fbin_rejects. Qed.
+Print Assumptions C20_fbin_macro_rejects_the_rest.
+
+Theorem C20_fdec_macro_builds_the_written_number : forall wbits static_ ts r, std_word wbits -> fdec_literal ts r ->
+  ~ Known_float static_ r -> macro_fdec_asis wbits static_ ts = Some r.
+Proof. exact macro_fdec_correct. Qed.
+Print Assumptions C20_fdec_macro_builds_the_written_number.
+
+Theorem C20_fdec_macro_rejects_the_rest : forall wbits static_ ts r, macro_fdec_asis wbits static_ ts = Some r ->
+  exists v, TextIoSpec.parse_spec 10 (join_tokens ts) = Some v.
+Proof. exact macro_fdec_rejects. Qed.
+Print Assumptions C20_fdec_macro_rejects_the_rest.
+
+(** the sign fbig! strips itself is the sign FBig::from_str reads: same text, same number *)
+Theorem C20_fbin_sign_is_runtime_sign : forall body sig e p, starts_with_sign body = false ->
+  TextIoSpec.parse_spec 2 body = Some (sig, e, p) ->
+  TextIoSpec.parse_spec 2 (45 :: body) = Some (- sig, e, p) /\ TextIoSpec.parse_spec 2 (43 :: body) = Some (sig, e, p).
+Proof. exact fbin_runtime_text. Qed.
+Print Assumptions C20_fbin_sign_is_runtime_sign.
+
+(** rbig!/static_rbig!: the components are those the run-time parser (rational/src/parse.rs over C07's integer parsers,
+    then C04's reduce / reduce2) builds from the text [-]num[/[-]den] in the same radix ... *)
+Theorem C20_ratio_macro_equals_runtime_parser : forall w o, rat_texts_ok o = true ->
+  macro_rat_parts_asis w o =
+  match rat_runtime w o with Some (a, c) => Some (fst (fst (fst (fst o))), a, c) | None => None end.
+Proof. exact macro_rat_parts_eq_runtime. Qed.
+Print Assumptions C20_ratio_macro_equals_runtime_parser.
+
+(** ... the macro compiles iff the tokens are a fraction literal of the grammar with a non-zero denominator ... *)
+Theorem C20_ratio_macro_builds_the_written_fraction : forall w wbits static_ ts rel a c, parser_word w -> std_word wbits ->
+  (macro_rat_asis w wbits static_ ts = Some (rel, (a, c)) <->
+   exists num den, rat_literal ts rel num den /\
+                   (if rel then xfrom_parts_signed_asis num den else from_parts_signed_asis num den) = Ok (a, c)).
+Proof. exact macro_rat_asis_literal. Qed.
+Print Assumptions C20_ratio_macro_builds_the_written_fraction.
+
+(** ... and what is built has the value of the written fraction, a positive denominator, lowest terms for RBig and no
+    common factor two for Relaxed - on the const, the heap and the static path, for every target word size *)
+Theorem C20_ratio_macro_value : forall w wbits static_ ts rel a c, parser_word w -> std_word wbits ->
+  macro_rat_asis w wbits static_ ts = Some (rel, (a, c)) ->
+  exists num den, rat_literal ts rel num den /\ den <> 0 /\ 0 < c /\ a * den = num * c /\
+                  (rel = false -> Z.gcd a c = 1) /\ (rel = true -> a = 0 \/ Z.abs a mod 2 <> 0 \/ c mod 2 <> 0).
+Proof. exact macro_rat_asis_value. Qed.
+Print Assumptions C20_ratio_macro_value.
+
+(** * round 3: token reconstruction (Macro/LitLexModel.v = the lexer that cuts the literal text into the macro's tokens) *)
+
+(** the tokens joined again are the text without its white space - nothing dropped, changed or re-ordered; every token is
+    a non-empty run of visible characters, literals start with a digit, identifiers with a letter or `_`, punctuation is
+    one character, no groups *)
+Theorem C20_tokens_are_the_text : forall s ts, lex s = LexOk ts -> join_tokens ts = strip_ws s /\ Forall tok_ok ts.
+Proof. exact lex_join. Qed.
+Print Assumptions C20_tokens_are_the_text.
+
+Theorem C20_text_of_tokens_of_literal : forall s ts, Forall vis s -> lex s = LexOk ts -> join_tokens ts = s.
+Proof. exact lex_text_roundtrip. Qed.
+Print Assumptions C20_text_of_tokens_of_literal.
+
+Theorem C20_lexer_fuel : forall s, lex s <> LexOutOfFuel.
+Proof. exact lex_total. Qed.
+Print Assumptions C20_lexer_fuel.
+
+(** from the SOURCE TEXT to the number, integer macros: if the text lexes and the macro compiles, the text without white
+    space is [+|-]? value [base N]? and the number built is the run-time parser's for [-]? value in that radix *)
+Theorem C20_source_text_int : forall w wbits signed_ static_ s ts z, parser_word w -> std_word wbits ->
+  lex s = LexOk ts -> macro_int_asis w wbits signed_ static_ ts = Some z ->
+  exists neg v b sgn, strip_ws s = sgn ++ v ++ base_suffix b /\ (sgn = sign_text neg \/ (sgn = [43] /\ neg = false)) /\
+                      int_runtime w signed_ neg v b = Some z.
+Proof. exact src_int_macro_runtime. Qed.
+Print Assumptions C20_source_text_int.
+
+(** float macros: however the lexer cuts the text (`1e5` one token, `1.` `e5` three, `0x1.8p-3` five), and whatever white
+    space separates the tokens, the same float is built *)
+Theorem C20_source_text_float : forall wbits static_ s ts s' ts', lex s = LexOk ts -> lex s' = LexOk ts' ->
+  strip_ws s = strip_ws s' ->
+  macro_fbin_asis wbits static_ ts = macro_fbin_asis wbits static_ ts' /\
+  macro_fdec_asis wbits static_ ts = macro_fdec_asis wbits static_ ts'.
+Proof. exact src_float_macros. Qed.
+Print Assumptions C20_source_text_float.
+
+Theorem C20_source_text_fdec_literal : forall s ts r, lex s = LexOk ts ->
+  (fdec_literal ts r <-> TextIoSpec.parse_spec 10 (strip_ws s) = Some r).
+Proof. exact src_fdec_literal. Qed.
+Print Assumptions C20_source_text_fdec_literal.
